@@ -1,11 +1,12 @@
 #!/bin/bash
 # Re-run the filed property-preserving changes against the current checks (false-alarm regression).
-# usage: tools/rerun_benign.sh [id-prefix]
+# usage: tools/rerun_benign.sh [substring of the ids to run, e.g. r2]
 cd "$(dirname "$0")/.."
 declare -A REL=( [C01]="C01 C03 C04 C05" [C03]="C03 C04 C01 C05" [C05]="C05 C01 C03 C04 C07" [C07]="C07 C05 C20" [C08]="C08" [C18]="C18 C07" [C19]="C19 C08" [C20]="C20 C07 C05 C01" )
 n=0; al=0
-for d in benign/${1:-}*/; do
+for d in benign/*/; do
   id=$(basename "$d"); prop=${id%%-*}
+  case "$id" in *${1:-}*) ;; *) continue;; esac
   out=$(timeout 6000 tools/try_benign.py "$d" ${REL[$prop]} 2>&1)
   a=$(echo "$out" | python3 -c "import json,sys; d=json.load(sys.stdin); print(d['alarms'], {p:v['lines'][:1] for p,v in d['checks'].items() if v['exit']!=0})" 2>/dev/null || echo "TOOL-ERROR")
   echo "$id alarms: $a"
